@@ -101,9 +101,14 @@ func rcClient(r *Rand, idx int, focus string) ClientSpec {
 		}
 		fl := r.flags(focus != "C02")
 		pk := &PktSpec{Ver: r.version(), Type: typ, Seq: uint8(seq), Flags: fl, Session: sid, Body: body}
-		if focus == "C02" && r.Chance(6) {
+		if focus == "C03" && r.Chance(20) {
+			pk.BodyFirst = true
+		}
+		if focus == "C02" && r.Chance(8) {
 			// header values the library must refuse
-			switch r.Intn(3) {
+			switch r.Intn(4) {
+			case 3:
+				pk.SeqWide = PickOf(r, uint16(256), 257, 300, 511, 513, 65535)
 			case 0:
 				pk.Seq = 0
 			case 1:
@@ -175,6 +180,11 @@ func codecProbeClient(r *Rand, idx int, focus string) ClientSpec {
 			rep.N[0] = 2
 		}
 		st.Reply = &rep
+		if focus == "C03" && r.Chance(20) && pk.Seq < 255 && rep.Sendable() && !(rep.Kind == model.KAuthenReply && nth(rep.N, 0) == 6) {
+			// the handler sends through Response.Write with a stale length in its header
+			st.ViaWrite = true
+			st.WrongLen = PickOf(r, uint32(0), 1, 7, 16, 17, uint32(r.Intn(64)))
+		}
 		cs.Handler = append(cs.Handler, st)
 	}
 	insertAwaits(r, &cs, PickOf(r, 0, 50, 100))
